@@ -2587,3 +2587,38 @@ def gen_loops():
                                 'end Opy.Gen', ''])
     data['trees'] = dict(trees=tr, terminals=tm)
     return texts, data
+
+
+# ------------------------------------------------------------------ GP._update (order of the operator loops)
+def read_update(fn):
+    if fn is None:
+        return '{ calls := ["?"] }'
+    calls = []
+    for st in body_of(fn):
+        if isinstance(st, ast.Expr) and isinstance(st.value, ast.Call) and ast.unparse(st.value.func).startswith('logger.'):
+            continue
+        if isinstance(st, ast.Expr) and isinstance(st.value, ast.Call) and isinstance(st.value.func, ast.Attribute) \
+                and isinstance(st.value.func.value, ast.Name) and st.value.func.value.id == 'self' \
+                and [ast.unparse(a) for a in st.value.args] == ['space'] and not st.value.keywords:
+            calls.append(st.value.func.attr)
+        else:
+            calls.append('?')
+    return '{ calls := [' + ', '.join(lean_str(c) for c in calls) + '] }'
+
+
+_old_gen_loops18 = gen_loops
+
+
+def gen_loops():
+    texts, data = _old_gen_loops18()
+    up = read_update(find_method(f'{REPO}/opytimizer/optimizers/gp.py', 'GP', '_update'))
+    texts['GPRunDefs'] = '\n'.join(['-- GENERATED by harness/translate_loops.py from GP._update. Do not edit.',
+                                    'import OpyVerif.Model.GPRun', 'namespace Opy.Gen', 'open Opy', '',
+                                    f'def updateProg : UpdateProg := {up}', '', 'end Opy.Gen', ''])
+    texts['GPRun'] = '\n'.join(['-- GENERATED by harness/translate_loops.py: obligations re-decided on every build. Do not edit.',
+                                'import OpyVerif.Generated.GPRunDefs', 'namespace Opy.Gen', 'open Opy',
+                                '/-- `GP._update` calls the three operator loops in the order the task-level theorem assumes -/',
+                                'theorem updateProg_eq : updateProg = Expected.updateProg := by decide +kernel',
+                                'end Opy.Gen', ''])
+    data['gp_update'] = up
+    return texts, data
